@@ -303,18 +303,18 @@ type c08FActor ap.Actor
 type c08FActivity ap.Activity
 
 // they are Items through explicit methods (the vocabulary methods are not inherited by a defined type)
-func (n *c08FNote) GetID() ap.ID                       { return n.ID }
-func (n *c08FNote) GetLink() ap.IRI                    { return n.ID }
-func (n *c08FNote) GetType() ap.ActivityVocabularyType { return n.Type }
-func (n *c08FNote) IsLink() bool                       { return false }
-func (n *c08FNote) IsObject() bool                     { return true }
-func (n *c08FNote) IsCollection() bool                 { return false }
-func (n *c08FActor) GetID() ap.ID                       { return n.ID }
-func (n *c08FActor) GetLink() ap.IRI                    { return n.ID }
-func (n *c08FActor) GetType() ap.ActivityVocabularyType { return n.Type }
-func (n *c08FActor) IsLink() bool                       { return false }
-func (n *c08FActor) IsObject() bool                     { return true }
-func (n *c08FActor) IsCollection() bool                 { return false }
+func (n *c08FNote) GetID() ap.ID                           { return n.ID }
+func (n *c08FNote) GetLink() ap.IRI                        { return n.ID }
+func (n *c08FNote) GetType() ap.ActivityVocabularyType     { return n.Type }
+func (n *c08FNote) IsLink() bool                           { return false }
+func (n *c08FNote) IsObject() bool                         { return true }
+func (n *c08FNote) IsCollection() bool                     { return false }
+func (n *c08FActor) GetID() ap.ID                          { return n.ID }
+func (n *c08FActor) GetLink() ap.IRI                       { return n.ID }
+func (n *c08FActor) GetType() ap.ActivityVocabularyType    { return n.Type }
+func (n *c08FActor) IsLink() bool                          { return false }
+func (n *c08FActor) IsObject() bool                        { return true }
+func (n *c08FActor) IsCollection() bool                    { return false }
 func (n *c08FActivity) GetID() ap.ID                       { return n.ID }
 func (n *c08FActivity) GetLink() ap.IRI                    { return n.ID }
 func (n *c08FActivity) GetType() ap.ActivityVocabularyType { return n.Type }
